@@ -304,19 +304,42 @@ def _sink_attribute_copies(tree):
             # involves `self` (a method of the object, or the object handed to a function) or a read of the attribute in
             # that span would see the new value too early in the rewritten form (e.g. a README generated from the handle
             # before the handle's shape is updated)
-            first = min(d.lineno for d in defs)
+            # (position = index in a structural pre-order walk: line numbers are meaningless once helpers were inlined)
+            order = []
+
+            def _flat(stmts):
+                for x_ in stmts:
+                    if isinstance(x_, (ast.FunctionDef, ast.AsyncFunctionDef, ast.ClassDef)):
+                        continue
+                    order.append(x_)
+                    for fld_ in ('body', 'orelse', 'handlers', 'finalbody'):
+                        sub_ = getattr(x_, fld_, None)
+                        if isinstance(sub_, list):
+                            _flat([h_ for h_ in sub_ if isinstance(h_, ast.stmt)] +
+                                  [b_ for h_ in sub_ if isinstance(h_, ast.ExceptHandler) for b_ in h_.body])
+            _flat(fn.body)
+            pos = {id(x_): i_ for i_, x_ in enumerate(order)}
+            if id(st) not in pos or any(id(d) not in pos for d in defs):
+                continue
+            first = min(pos[id(d)] for d in defs)
             observed = False
-            for x in ast.walk(fn):
-                if not isinstance(x, ast.stmt) or x is st or x in defs or not (first < x.lineno < st.lineno):
+            for x in order[first + 1:pos[id(st)]]:
+                if x is st or x in defs:
                     continue
                 if isinstance(x, (ast.If, ast.For, ast.While, ast.With, ast.Try)):
-                    continue        # their simple statements are visited on their own
-                for y in ast.walk(x):
-                    if isinstance(y, ast.Call) and any(isinstance(z, ast.Name) and z.id == 'self' for z in ast.walk(y)):
-                        observed = True
-                    if isinstance(y, ast.Attribute) and y.attr == attr and isinstance(y.value, ast.Name) and \
-                            y.value.id == 'self' and isinstance(y.ctx, ast.Load):
-                        observed = True
+                    # compound statements: only their header expressions; their simple statements come on their own
+                    hdr = [getattr(x, 'test', None), getattr(x, 'iter', None)] + \
+                          [it.context_expr for it in getattr(x, 'items', [])]
+                    parts = [h for h in hdr if h is not None]
+                else:
+                    parts = [x]
+                for part in parts:
+                    for y in ast.walk(part):
+                        if isinstance(y, ast.Call) and any(isinstance(z, ast.Name) and z.id == 'self' for z in ast.walk(y)):
+                            observed = True
+                        if isinstance(y, ast.Attribute) and y.attr == attr and isinstance(y.value, ast.Name) and \
+                                y.value.id == 'self' and isinstance(y.ctx, ast.Load):
+                            observed = True
             if observed:
                 continue
 
